@@ -2,9 +2,10 @@
 import os
 from tools.py2lean import gen_c15
 
-LEAN_TARGETS = ["EasyFEAVerif.Props.C15", "EasyFEAVerif.Props.C15Store"]
-PROPS_MODULES = ["EasyFEAVerif.Props.C15", "EasyFEAVerif.Props.C15Store"]
+LEAN_TARGETS = ["EasyFEAVerif.Props.C15", "EasyFEAVerif.Props.C15Store", "EasyFEAVerif.Props.C15Restore"]
+PROPS_MODULES = ["EasyFEAVerif.Props.C15", "EasyFEAVerif.Props.C15Store", "EasyFEAVerif.Props.C15Restore"]
 TRUSTED_EXTRA = [
+    "C15: which stored fields Set_Iter restores (Props/C15Restore.lean): the branch tests of Elastic / HyperElastic / Thermal / WeakForms.Set_Iter are pinned (Gen/C15/Restore.lean; a test that reads the current time scheme is refused) and the rule 'every stored field is written back' is proved to return what was saved for every scheme at save time and now; the rule of the code before fixes 66f3604 / 44d8e78 / 7cdc83a is refuted",
     "C15: the mesh-history bookkeeping (mesh setter, Save_Iter, Set_Iter, __Update_mesh) is matched statement by statement and modelled by MeshHist (refinement proved for every operation sequence); the store model (Model/IterStore.lean) is hand-written; files are identified by (folder, iteration counter): injectivity of the file-name encoding and pickle's round trip are assumed",
     "C15: 'getters copy, setters store': absence of aliasing between stored arrays and live state is checked on the real code (earlier iterations re-read after every operation), not proved",
 ]
